@@ -87,6 +87,21 @@ func SelfHBClean() {
 	cancel()
 	wg.Wait()
 	rt.Assert(cnt.v == 2, "mutex + waitgroup")
+
+	// context.AfterFunc: f runs (in its own goroutine) after the cancellation it
+	// was registered for; a stopped registration never runs
+	actx, acancel := context.WithCancel(context.Background())
+	after := &box{}
+	ran := make(chan struct{})
+	context.AfterFunc(actx, func() { after.v++; close(ran) })
+	never := &box{}
+	stop := context.AfterFunc(actx, func() { never.v = 1 })
+	rt.Assert(stop(), "AfterFunc stop before cancel reports true")
+	after.v = 10
+	acancel()
+	<-ran
+	rt.Assert(after.v == 11 && never.v == 0, "AfterFunc after cancel")
+	rt.Assert(!stop(), "AfterFunc second stop reports false")
 	rt.Cover("hb-clean")
 }
 
